@@ -26,8 +26,8 @@ FLOATS = [0.5, 1.5, -2.0, math.inf, -math.inf, 1e300, -0.0]
 TUPLES = [(0, 0), (), (1,), (1, 2), ((1,), 'a'), (-1, math.inf)]
 LISTS = [[], [1], ['a', "'"], [[1], (2,)], [-3]]
 D2S = [{'u': None, 's': 1}, {'v': None, 's': 1}, {'u': None, 's': 2}, {'s': 1, 'u': None}]
-DICTS = [{'a': 1, 'b': 2}, {}, {'a': 1}, {'a': 1, 'b': 3}, {'a': 1, 'b': 2, 'c': 3}, {'z': [1]}]
-NAMES = [None, 'nm', 'P1', 'V01', 'V2x', "q'"]
+DICTS = [{'a': 1, 'b': 2}, {}, {'a': 1}, {'a': 1, 'b': 3}, {'a': 1, 'b': 2, 'c': 3}, {'z': [1]}, {'a': math.inf}, {'t': (1,), 'm': -math.inf}]
+NAMES = [None, 'nm', 'P1', 'V01', 'V2x', "q'", 'CLS', 'CLS00001\n']      # CLS: the class's own name
 
 
 class Inner(param.Parameterized):
@@ -154,6 +154,8 @@ def _run(variant, kw, n, grp, hist=None):
         kw = dict(kw, name=n.replace('V', K.__name__[0]) if n.startswith('V') else n)
         if n == 'P1':
             kw['name'] = K.__name__ + '1'
+        if n.startswith('CLS'):
+            kw['name'] = n.replace('CLS', K.__name__)
     p = K(**kw)
     info = {'variant': K.__name__, 'group': grp, 'kw': repr(kw)}
     text = p.param.pprint()
@@ -216,17 +218,13 @@ def autoname(tier):
         return row
     digit = z3.Range('0', '9')
     spec = z3.Concat(z3.Re('P'), z3.Loop(digit, 5, 5), z3.Star(digit))        # 'P' + at least five digits
-    # the trailing-newline tolerance of '$' concerns names nobody can construct here: restrict to names without newline
     r, w, secs = regex2z3.difference(impl, spec, 9)
     row.update(result=r, solver_s=round(secs, 3), pattern=pat)
     if r == 'unsat':
         row['status'] = 'ok'
     elif r == 'sat':
-        if w.endswith('\n'):
-            row.update(status='ok', note='only difference: a name ending in a newline (%r)' % w)
-        else:
-            row.update(status='violation', witness=w, info=dict(witness=w),
-                       replay=dict(module='harness.c20', fn='replay_name', args=dict(name=w), label='C20.autoname_lang', property='C20'))
+        row.update(status='violation', witness=w, info=dict(witness=w),
+                   replay=dict(module='harness.c20', fn='replay_name', args=dict(name=w), label='C20.autoname_lang', property='C20'))
     else:
         row.update(status='error', error='solver returned %s' % r)
     return row
@@ -277,7 +275,7 @@ def autoname_values(tier):
         row.update(status='error', error='unsupported regex construct %s' % e)
         return row
     digit = z3.Range('0', '9')
-    spec = z3.Concat(z3.Re('P'), z3.Loop(digit, 5, 5), z3.Star(digit), z3.Option(z3.Re(chr(10))))
+    spec = z3.Concat(z3.Re('P'), z3.Loop(digit, 5, 5), z3.Star(digit))
     r, w, secs = regex2z3.inclusion(impl, spec, 9)
     row.update(result=r, solver_s=round(secs, 3), pattern=pat, matcher=how)
     if r == 'unsat':
